@@ -171,6 +171,15 @@ impl Insert {
                 // TODO: Validate foreign keys.
             }
         }
+        // An empty string cannot be told apart from null once stored, so
+        // treat it as null from here on (in particular when comparing keys).
+        let new_rows: Vec<Vec<Value>> = self
+            .new_rows
+            .into_iter()
+            .map(|values| {
+                values.into_iter().map(Value::into_storable).collect()
+            })
+            .collect();
         // Read in the rows from the table.
         let stream_name = table.stream_name();
         let key_indices = table.primary_key_indices();
@@ -196,7 +205,7 @@ impl Insert {
         // Check if any of the new rows already exist in the table (or conflict
         // with each other).
         let mut new_keys_set = HashSet::<Vec<Value>>::new();
-        for values in self.new_rows.iter() {
+        for values in new_rows.iter() {
             let keys: Vec<Value> = key_indices
                 .iter()
                 .map(|&index| values[index].clone())
@@ -217,7 +226,7 @@ impl Insert {
             new_keys_set.insert(keys);
         }
         // Don't let the table grow beyond what can be read back.
-        if rows_map.len() + self.new_rows.len() > MAX_NUM_TABLE_ROWS {
+        if rows_map.len() + new_rows.len() > MAX_NUM_TABLE_ROWS {
             invalid_input!(
                 "Table {:?} cannot hold more than {} rows",
                 self.table_name,
@@ -225,7 +234,7 @@ impl Insert {
             );
         }
         // Insert the new rows into the table.
-        for values in self.new_rows.into_iter() {
+        for values in new_rows.into_iter() {
             let keys: Vec<Value> = key_indices
                 .iter()
                 .map(|&index| values[index].clone())
@@ -735,7 +744,10 @@ impl Update {
                         table.index_for_column_name(column_name).unwrap();
                     let value_ref = &mut value_refs[index];
                     value_ref.remove(string_pool);
-                    *value_ref = ValueRef::create(value.clone(), string_pool);
+                    *value_ref = ValueRef::create(
+                        value.clone().into_storable(),
+                        string_pool,
+                    );
                 }
             }
         }
